@@ -261,3 +261,21 @@ amend("C16", text="_pipeline_info on five Pipeline / FeatureUnion shapes x 1..2 
 amend("C18", text="non_linear_correlations never returns NaN, also when the Pearson matrix the accumulators are shaped after holds NaN (constant columns).")
 amend("C20", text="ts_mape also for forecasts with missing (NaN) entries anywhere - numpy.ma masked sums modelled - the naive forecast being 'the previous value "
                   "where there is a forecast'; precondition: at least one step is scored.")
+
+
+# ---- amendments after the fourth round of seeds (DESIGN.md 11.9)
+_QF = "Every query under contract carries a frame clause: the estimator is left with exactly the attributes it had (no state kept between calls)."
+for _p in ("C05", "C06", "C09", "C10", "C11", "C12", "C13", "C14", "C15", "C17", "C19"):
+    amend(_p, text=_QF)
+amend("C01", text="SkLearnParameters.__init__ (the holder behind SkBase.P) keeps the very objects it is given - lists and dicts included - in the order given.")
+amend("C02", text="Also under the frame contract: PredictableTSNE.fit (the caller's normalizer / t-SNE transformer / estimator get no set_params and are never "
+                  "fitted, whatever the number of rows), ExtendedFeatures.fit, CategoriesToIntegers.fit (the caller's column list is not modified).")
+amend("C03", text="Refit contracts also for PredictableTSNE, ExtendedFeatures, CategoriesToIntegers.")
+amend("C05", text="compute_z and fit write none of the caller's arrays (the sample weights above all) and return new arrays.")
+amend("C16", text="A second call of a wrapped method on the same array object refilled in place runs the original method again on the new content.")
+amend("C18", text="Both branches are proved: numpy array and pandas DataFrame (accumulators written through .iloc; results are new frames labelled by the input's "
+                  "columns); every coefficient is fitted on a fresh clone of the model (invariant over the trace of external calls).",
+      note="pandas numeric frames are modelled as labelled matrices (pyvc/pdmodel.py).")
+amend("C19", text="fit leaves the constructor parameters alone (columns=None means: detect at every fit).")
+amend("C20", text="build_ts_X_y is verified for real AND integer series (after the repair of two dtype defects found with this machinery: NaN padding and "
+                  "exogenous variables of an integer series).")
